@@ -31,6 +31,13 @@ def parseName (t : String) : Option (Option Name) :=
       pure (some { key := key, orig := orig, valid := valid })
   | _ => none
 
+/-- NAME of mkblock / mkframe: `<orighex>/<normhex>/<0|1>/L` = the lenient call (cif_create_block_internal /
+    cif_container_create_frame_internal with lenient = 1) -/
+def parseNameL (t : String) : Option (Option Name × Bool) :=
+  match t.splitOn "/" with
+  | [o, k, v, "L"] => (parseName s!"{o}/{k}/{v}").map (·, true)
+  | _ => (parseName t).map (·, false)
+
 def parseNat (t : String) : Option Nat := t.toNat?
 
 /-- VALUE | ~ -/
@@ -75,10 +82,10 @@ def parseNames : Nat → List String → Option (List Name × List String)
 def parseOp : List String → Option (Op × List String)
   | "cif+" :: r => some (.cifNew, r)
   | "cif-" :: c :: r => do pure (.cifDel (← parseNat c), r)
-  | "mkblock" :: c :: n :: r => do pure (.mkBlock (← parseNat c) (← parseName n), r)
+  | "mkblock" :: c :: n :: r => do let (nm, len) ← parseNameL n; pure (.mkBlock (← parseNat c) nm len, r)
   | "getblock" :: c :: n :: r => do let nm ← parseName n; pure (.getBlock (← parseNat c) (← nm), r)
   | "blocks" :: c :: r => do pure (.blocks (← parseNat c), r)
-  | "mkframe" :: h :: n :: r => do pure (.mkFrame (← parseNat h) (← parseName n), r)
+  | "mkframe" :: h :: n :: r => do let (nm, len) ← parseNameL n; pure (.mkFrame (← parseNat h) nm len, r)
   | "getframe" :: h :: n :: r => do pure (.getFrame (← parseNat h) (← parseName n), r)
   | "frames" :: h :: r => do pure (.frames (← parseNat h), r)
   | "cdestroy" :: h :: r => do pure (.cdestroy (← parseNat h), r)
